@@ -919,6 +919,12 @@ class CExec(object):
             return z3.Or(a, b)
         a = self.rvalue(l, st)
         b = self.rvalue(r, st)
+        safety = getattr(self, "safety", None)
+        if safety is not None and op == "/" and not (isinstance(a, Ptr) or isinstance(b, Ptr)) \
+                and is_float_type(e["type"]["qualType"]):
+            # opt-in: record 'divisor non-zero' under the guards of this program point
+            line = (e.get("range", {}).get("begin", {}).get("spellingLoc", e.get("range", {}).get("begin", {}))).get("line")
+            safety.append(("divisor_non_zero", list(st.facts) + [st.live()], to_real(b) != 0, line))
         return self.binop(op, a, b, e["type"]["qualType"])
 
     def r_CompoundAssignOperator(self, e, st):
